@@ -28,6 +28,34 @@ def def_rv(b, op):
     return None
 
 
+def _none_path_returns_zero(prog, crate, b):
+    """On every path on which the checked difference is None the function returns zero: the constant FineDuration::ZERO
+    (whose value is picos: 0), FineDuration { picos: 0 }, or Default::default()."""
+    from lib.patheval import PathEval
+    sums = PathEval(b).run()
+    if not sums:
+        return False
+    seen = 0
+    for s_ in sums:
+        none = [a for a, p in s_.conds if a[0] == "discr" and "checked_sub" in str(a[1]) and ((a[2] == 0 and p) or (a[2] == 1 and not p))]
+        if not none:
+            continue
+        seen += 1
+        r = s_.ret
+        if r == ("opaque", "uneval:time::fine_duration::FineDuration::ZERO"):
+            zb = prog.bodies.get((crate, "time::fine_duration::FineDuration::ZERO", -1))
+            zs = PathEval(zb).run() if zb is not None else None
+            if not (zs and len(zs) == 1 and zs[0].ret[0] == "adt" and zs[0].ret[3] == (("int", 0),)):
+                return False
+        elif r[0] == "adt" and r[1] == "time::fine_duration::FineDuration" and r[3] == (("int", 0),):
+            pass
+        elif r[0] == "site" and r[1].endswith("Default>::default") or r[0] == "site" and r[1] == "std::default::Default::default":
+            pass
+        else:
+            return False
+    return seen >= 1
+
+
 def r11_1(ctx, prog, crate):
     b = prog.body("time::timestamp::tsc::TscTimestamp::duration_since", crate)
     if not ctx.anchor("R11.1", "TscTimestamp::duration_since", 1 if b else 0, 1):
@@ -52,7 +80,8 @@ def r11_1(ctx, prog, crate):
         some_t = arms.get(1, otherwise)
         nb = tables.exclusive_blocks(b, none_t, [some_t])
         names = [b.call_at(x).callee for x in sorted(nb) if b.call_at(x) is not None]
-        ctx.check(names == ["<time::fine_duration::FineDuration as std::default::Default>::default"] or names == ["std::default::Default::default"], "R11.1",
+        by_default = names == ["<time::fine_duration::FineDuration as std::default::Default>::default"] or names == ["std::default::Default::default"]
+        ctx.check(by_default or _none_path_returns_zero(prog, crate, b), "R11.1",
                   ["duration_since", "earlier-after-later-is-zero"], "when b < a the function calls %s (expected Default::default, i.e. zero)" % names, b.where(none_t))
     # what is returned, as a value: floor(widen(diff) * 10^12 / widen(frequency.get())) in 128 bits - however it is spelled
     if _duration_since_value_ok(ctx, prog, b):
